@@ -189,6 +189,12 @@ def main(rec):
     rec.assumptions = ["reference model vf/libgen/ir.py (digest, outputs) and the documented C API mapping in vf/drivers/c.py",
                        "gcc/g++ 12 with ASan+UBSan"]
     cases = make_cases(r, thorough)
+    # shapes that only the C API can express (e.g. overloads that differ in const only): C-only libraries
+    conly = [x for x in libs.instances("c++", ("c",)) if "fortran" not in x[0]["wraps"]]
+    for bi, item in enumerate(conly):
+        for opts in ({}, {"debug": True}):
+            lib = libs.build("conly%d%s" % (bi, "d" if opts else ""), "c++", [item, item], ("c",), options=opts)
+            cases.append({"lib": lib, "plan": plan_with_objects(lib, r)})
     res = pool.run_cases("vf.checks.c02", cases, func="run_library", timeout=1200)
     shapes = set()
     for c, rr in zip(cases, res):
